@@ -11,7 +11,7 @@ RULE = ("exhaustive: every string of length <= 3 (quick) / <= 4 (thorough) over 
         "units (TAB LF VT CR SP \" # $ ' . ; ? [ \\ ] _ a { } U+03B1) x allow_unquoted x allow_triple x limit in {6, 8, 12, 2048}; "
         "all strings of length <= 5 over {' \" x} and <= 4 over {' \" ; LF x} (quote structure) x flags; "
         "plus seeded boundary strings of length limit-7 .. limit+1 (single line, multi-line with LF / CR / CR LF terminators, "
-        "embedded and trailing quote runs, reserved words); non-trivial = non-empty string; oracle (implementation only): "
+        "embedded and trailing quote runs, reserved words); seeded text-field strings that need the fold / prefix protocol under the writer's own arguments (both triple delimiters shut out, <LF>;, first line ending in a backslash, lines of 2044 .. 4100 units, semicolon runs at the fold window), each ALSO stored in a managed CIF, written by cif_write and parsed back (probe W); non-trivial = non-empty string; oracle (implementation only): "
         "statistics recomputed by line splitting, delimiter permitted + admissible + simple-form preference, and the probe "
         "document `data_a _x <presentation>` parsed by cif_parse reads back the string")
 
@@ -127,6 +127,63 @@ def generate(seed, tier):
         n = r.randrange(1, 12)
         s = [r.choice(ALPHA) if r.random() < 0.6 else r.randrange(1, 0x10000) for _ in range(n)]
         yield req(s, r.randrange(2), r.randrange(2), r.choice([6, 8, 12, 2048]))
+    # text fields that NEED the fold / prefix protocol under the arguments write_char itself passes (quoted value: allow_unquoted = 0,
+    # allow_triple = 1, limit 2048), so that probe W exercises the real writer's protocol and the parser's decode_text: both triple
+    # delimiters excluded (present, or the string ends in the quote character), then `<LF>;`, a first line ending in a backslash
+    # (+ blanks), lines longer than 2048, long semicolon runs
+    for s in protocol_strings(r, 150 if tier == "quick" else 2500):
+        yield req(s, 0, 1, 2048)
+        if r.random() < 0.2:
+            yield req(s, r.randrange(2), r.randrange(2), r.choice([12, 2048]))
+
+
+def protocol_strings(r, count):
+    both = [[39, 39, 39, 34, 34, 34], [34, 34, 34, 120, 39, 39, 39], [39, 39, 39, 120, 34], [34, 34, 34, 39]]
+    tails = [[], [39], [34]]
+    fill = [97, 98, 32, 59, 92, 9, 0x3b1, 46, 35, 95]
+    out = []
+    for _ in range(count):
+        kind = r.randrange(7)
+        lines = []
+        nl = r.randrange(2, 5)
+        for j in range(nl):
+            n = r.choice([0, 1, 2, 5, 30]) if r.random() < 0.8 else r.randrange(0, 80)
+            lines.append([r.choice(fill) for _ in range(n)])
+        if kind in (0, 1, 2, 3):                                   # both triples shut out
+            q = list(r.choice(both))
+            j = r.randrange(nl)
+            p = r.randrange(len(lines[j]) + 1)
+            lines[j][p:p] = q[:3]
+            j2 = r.randrange(nl)
+            p2 = r.randrange(len(lines[j2]) + 1)
+            lines[j2][p2:p2] = q[3:] if len(q) > 3 else []
+            if len(q) <= 4 or r.random() < 0.3:
+                lines[-1] += [q[-1]] if q[-1] in (39, 34) else [39]
+        if kind in (0, 4):                                         # <LF>; : the prefix protocol
+            j = r.randrange(1, nl)
+            lines[j] = [59] * r.choice([1, 1, 2, 3]) + lines[j]
+        if kind in (1, 5):                                         # reserved start: first line ends in backslash (+ blanks)
+            lines[0] = lines[0] + [92] + [r.choice([32, 9])] * r.choice([0, 0, 1, 3])
+        if kind in (2, 4, 5, 6):                                   # a line beyond the line limit: folding
+            j = r.randrange(nl)
+            n = r.choice([2044, 2045, 2046, 2047, 2048, 2049, 2050, 4100])
+            body = [r.choice([97, 97, 97, 32, 59, 92]) for _ in range(n)]
+            if r.random() < 0.3:
+                k = r.choice([2046, 2047, 2048]) if n >= 2048 else n
+                body[:k] = [59] * min(k, n)                        # semicolon run at the fold window
+            if r.random() < 0.3:
+                for pos in (2045, 2046, 2047):
+                    if pos < n:
+                        body[pos] = r.choice([92, 32, 59, 97])
+            lines[j] = body
+        s = []
+        for j, l in enumerate(lines):
+            s += l
+            if j < nl - 1:
+                s += [10]
+        s += r.choice(tails) if kind >= 4 and r.random() < 0.2 else []
+        out.append(s)
+    return out
 
 
 # ---------------------------------------------------------------------------------------------------------------------
@@ -256,6 +313,31 @@ def oracle(req_, impl):
         if ("'" not in s or '"' not in s) and d not in ("none", "'", '"'):
             return "single line with room admits a single-quoted form, %s recommended" % d
     # read-back through the real parser
+    # text-field recommendations through the real WRITER (fold / prefix protocol where the analysis asks for it) and back: whatever
+    # the line lengths, `<LF>;` sequences or reserved starts, the value comes back as exactly that string (modulo the parser's
+    # EOL normalisation of CR, see below), quoted, with no error reported
+    for p in probes or []:
+        q = p.split(":")
+        if q[0] != "W":
+            continue
+        if len(q) != 9:
+            return "probe W did not run: %s" % p
+        if not cif2_string(units):
+            continue
+        _, wrc, rc, nerr, ferr, items, kind, quoted, text = q
+        if int(wrc) != 0:
+            return "probe W (text field through cif_write): cif_write returned %s" % wrc
+        if int(rc) != 0 or int(nerr) != 0:
+            return "probe W (text field through cif_write): cif_parse rc=%s, %s errors, first error code %s" % (rc, nerr, ferr)
+        if int(items) != 1 or int(kind) != 0:
+            return "probe W (text field through cif_write): %s items, kind %s" % (items, kind)
+        # (the writer analyses the value itself - as a quoted value, triple quotes allowed, limit 2048 - and may choose another
+        #  delimiter than this request's flags gave; for CR-containing strings the two presentations normalise differently)
+        if unhexs(text) not in (eol_norm(units + [10])[:-1], eol_norm(units)):
+            return "probe W (text field through cif_write, fold / prefix protocol): read back %s" % text
+        if int(quoted) != 1:
+            return "probe W (text field through cif_write): quoted flag %s" % quoted
+    probes = [p for p in (probes or []) if not p.startswith("W:")]
     if probes and probes[0] not in ("none", "proto") and cif2_string(units) and want["max"] <= 2048 \
             and not (d == "text" and want["first"] + 1 > 2048):      # ';' + first line over-long: needs the fold protocol
         # the parser normalises CR LF and CR to LF before tokenising (C08), so a string containing CR can only come back
